@@ -12,7 +12,7 @@ KEYS = {  # key in the subject -> label
     "pipelined AppendEntries": "S11",
     "keeps a monotonic log": "S13",
     "commits only up to the last entry": "S15",
-    "deposed while delivering": "S16",
+    "acts only under the term it was elected in": "S16",
     "verif: observation hooks": "HOOKS",
 }
 log = subprocess.check_output(["git", "-C", "/repo", "log", "--format=%h %s", "-n", "30"], text=True).splitlines()
